@@ -69,6 +69,7 @@ def splitPairs : List Bytes → Option (List (Bytes × Bytes))
     duplicate keys; members 1..7 are decoded (strictly) into their typed fields, every other member is skipped
     (only its well-formedness matters) -/
 def claimsDecode (data : Bytes) : Dec ClaimsS :=
+  if !rawTagsOk 64 data then .err else
   let b := rawUntag 64 data
   match decHead b with
   | some (7, _, 22, []) => .ok ⟨[], [], [], 0, 0, 0, none⟩
